@@ -8,6 +8,7 @@ import SqlLineage.IO.Config
 import SqlLineage.IO.Graph
 import SqlLineage.IO.Sql
 import SqlLineage.IO.PathSec
+import SqlLineage.IO.Shape
 import SqlLineage.IO.Names
 import SqlLineage.IO.Split
 import SqlLineage.IO.Provider
@@ -25,6 +26,7 @@ def handlers : List (String × (Json → Except String Json)) := [
   ("sql", SqlLineage.IO.Sql.handleSql),
   ("render", SqlLineage.IO.Sql.handleRender),
   ("dispatch", SqlLineage.IO.Sql.handleDispatch),
+  ("shape", SqlLineage.IO.Shape.handleShape),
   ("path", SqlLineage.IO.PathSec.handleOne),
   ("pathbatch", SqlLineage.IO.PathSec.handleBatch),
   ("pathlib", SqlLineage.IO.PathSec.handlePathlib),
